@@ -213,7 +213,7 @@ func TestVerifC02Sampled(t *testing.T) {
 								var class string
 								pan := memconn.Bubble(t, func() { prob, class = c02Point(c, sp.Sizes, payload, pol, &b.Buf) })
 								b.N++
-								r.Executions++
+								b.Transfers++
 								switch {
 								case pan != "":
 									r.Violate("sampledconn:panic-or-deadlock", pan, c)
@@ -224,7 +224,6 @@ func TestVerifC02Sampled(t *testing.T) {
 								default:
 									r.Outcome(class)
 									if L >= 3 && reader == "Read" {
-										b.Transfers++
 										b.Distinct(c, sp.Sizes, short, peekFirst, each, pol.Name)
 									}
 								}
